@@ -46,12 +46,17 @@ META = {
         "satisfiable); without forced_ok, C19_interference_confined shows any sharing is confined to registers the input "
         "itself pre-assigned. "
         "riscv_scf.for allocation (live-ins incl. those of inner loops, loop-carried groups, reserved registers; nests of "
-        "depth one and two) is modelled and tied by correspondence and the oracle; for loops only PARTIAL theorems are "
-        "proved (C19_loop_groups_partial: allocating non-overlapping loop-carried groups whose iter operand dies at the "
-        "loop and whose yield operand is a body value preserves the invariant; C19_loop_reserve_partial; "
-        "C19_loop_rebase_partial; C19_loop_body_partial: the body walk under reservation re-establishes it at every body point), the end-to-end "
-        "loop theorem and loop semantics are not finished. Open known finding C19-kf-3 (yield of the induction variable, "
-        "C19_loop_yield_iv_refuted). Tie: the model is run next to the real "
+        "depth one and two) is modelled and tied by correspondence and the oracle. For a function with ONE riscv_scf.for "
+        "(one nesting level) and no pre-assigned register, C19_no_interference_loop proves: every value live at any "
+        "point before, inside or after the loop has a register and two values live together never share one (except "
+        "zero), where loop liveness is the fixed point over the back edge (induction variable, live-ins, ub/step and "
+        "yield operands live throughout the body), under the hypotheses: SSA + in/out contract on the virtual block "
+        "(incl. iter operands die at the loop), loop-carried groups do not overlap, the induction variable / live-ins / "
+        "bounds are not group members (every yield operand is a value of its own; excludes the open finding C19-kf-3, "
+        "`yield %iv`, C19_loop_yield_iv_refuted), values tied into one register are never live together. Building "
+        "blocks: C19_loop_groups/reserve/rebase/body_partial. Not proved: loops with pre-assigned registers, no-clobber and "
+        "semantics for loops, two-level nests. "
+        "Tie: the model is run next to the real "
         "riscv/x86 allocate_func on generated functions and the complete value->register map and final RegisterStack are "
         "compared exactly; an independent liveness/interference checker and register-machine simulation judge the real "
         "output."),
@@ -66,7 +71,7 @@ META = {
         "two in/out slots of one operation; the legalisation passes (x86-regalloc-legalize / verify-liveness) that establish "
         "the in/out contract."),
 }
-COQ_TARGETS = ["C19/Enc.vo", "C19/ProofsSem.vo", "C19/ProofsFunc.vo", "C19/ProofsRefute.vo", "C19/ProofsLoop.vo", "Props/C19.vo"]
+COQ_TARGETS = ["C19/Enc.vo", "C19/ProofsSem.vo", "C19/ProofsFunc.vo", "C19/ProofsRefute.vo", "C19/ProofsLoop.vo", "C19/ProofsLoop2.vo", "C19/ProofsLoopEx.vo", "Props/C19.vo"]
 REQ = ["C19.Model", "C19.Enc"]
 ASSUMPTIONS = [
     "the input's own register constraints are satisfiable without inserting copies: values it forces into one register "
